@@ -50,35 +50,37 @@ theorem same_id_same_label (l : List (String × Nat)) (a b : String) (n : Nat)
     · exfalso; apply hq.1; rw [← hb]; exact List.mem_map_of_mem (f := (·.2)) ha
     · exact ih hq.2 ha hb
 
-theorem inject_found (H : Key → String) (p : Printer) (st : St) (par : Nat) (e : Expr) (n : Nat)
-    (h : (st.children par).lookup (label H p e) = some n) : inject H p st (some par) e = (st, n) := by
-  simp [inject, h]
+/-! ### lookup-or-create for an arbitrary labelling `L` of expressions -/
 
-theorem inject_new (H : Key → String) (p : Printer) (st : St) (par : Nat) (e : Expr)
-    (h : (st.children par).lookup (label H p e) = none) :
-    inject H p st (some par) e =
-      ({ children := updF st.children par (st.children par ++ [(label H p e, st.next)]), next := st.next + 1 },
+theorem injectL_found (L : Expr → String) (st : St) (par : Nat) (e : Expr) (n : Nat)
+    (h : (st.children par).lookup (L e) = some n) : injectL L st (some par) e = (st, n) := by
+  simp [injectL, h]
+
+theorem injectL_new (L : Expr → String) (st : St) (par : Nat) (e : Expr)
+    (h : (st.children par).lookup (L e) = none) :
+    injectL L st (some par) e =
+      ({ children := updF st.children par (st.children par ++ [(L e, st.next)]), next := st.next + 1 },
        st.next) := by
-  simp [inject, h]
+  simp [injectL, h]
 
-theorem inject_WF (H : Key → String) (p : Printer) (st : St) (parent : Option Nat) (e : Expr) (h : WF st) :
-    WF (inject H p st parent e).1 := by
+theorem injectL_WF (L : Expr → String) (st : St) (parent : Option Nat) (e : Expr) (h : WF st) :
+    WF (injectL L st parent e).1 := by
   cases parent with
   | none =>
     intro par
     obtain ⟨h1, h2, h3⟩ := h par
     exact ⟨h1, h2, fun q hq => Nat.lt_succ_of_lt (h3 q hq)⟩
   | some par =>
-    cases hl : (st.children par).lookup (label H p e) with
-    | some n => rw [inject_found H p st par e n hl]; exact h
+    cases hl : (st.children par).lookup (L e) with
+    | some n => rw [injectL_found L st par e n hl]; exact h
     | none =>
-      rw [inject_new H p st par e hl]
+      rw [injectL_new L st par e hl]
       intro par'
       obtain ⟨h1, h2, h3⟩ := h par'
       by_cases hp : par' = par
       · subst hp
         simp only [updF_same, List.map_append, List.map_cons, List.map_nil]
-        have hnot : label H p e ∉ (st.children par').map (·.1) := by
+        have hnot : L e ∉ (st.children par').map (·.1) := by
           intro hm
           obtain ⟨q, hq, hq1⟩ := List.mem_map.mp hm
           have := List.lookup_eq_none_iff.mp hl q hq
@@ -108,74 +110,74 @@ theorem inject_WF (H : Key → String) (p : Printer) (st : St) (parent : Option 
         exact ⟨h1, h2, fun q hq => Nat.lt_succ_of_lt (h3 q hq)⟩
 
 /-- after the injection the label resolves to the returned node -/
-theorem inject_lookup_self (H : Key → String) (p : Printer) (st : St) (par : Nat) (e : Expr) :
-    ((inject H p st (some par) e).1.children par).lookup (label H p e) = some (inject H p st (some par) e).2 := by
-  cases hl : (st.children par).lookup (label H p e) with
-  | some n => rw [inject_found H p st par e n hl]; exact hl
-  | none => rw [inject_new H p st par e hl]; simp [List.lookup_append, hl]
+theorem injectL_lookup_self (L : Expr → String) (st : St) (par : Nat) (e : Expr) :
+    ((injectL L st (some par) e).1.children par).lookup (L e) = some (injectL L st (some par) e).2 := by
+  cases hl : (st.children par).lookup (L e) with
+  | some n => rw [injectL_found L st par e n hl]; exact hl
+  | none => rw [injectL_new L st par e hl]; simp [List.lookup_append, hl]
 
 /-- existing names keep resolving to the same node -/
-theorem inject_mono (H : Key → String) (p : Printer) (st : St) (parent : Option Nat) (e : Expr)
+theorem injectL_mono (L : Expr → String) (st : St) (parent : Option Nat) (e : Expr)
     (par : Nat) (l : String) (n : Nat) (h : (st.children par).lookup l = some n) :
-    ((inject H p st parent e).1.children par).lookup l = some n := by
+    ((injectL L st parent e).1.children par).lookup l = some n := by
   cases parent with
   | none => exact h
   | some par' =>
-    cases hl : (st.children par').lookup (label H p e) with
-    | some m => rw [inject_found H p st par' e m hl]; exact h
+    cases hl : (st.children par').lookup (L e) with
+    | some m => rw [injectL_found L st par' e m hl]; exact h
     | none =>
-      rw [inject_new H p st par' e hl]
+      rw [injectL_new L st par' e hl]
       by_cases hp : par = par'
       · subst hp; simp [List.lookup_append, h]
       · simp [updF_other _ _ _ _ hp, h]
 
 /-- a history of injections into one parent: final state and the nodes returned, in order -/
-def injAll (H : Key → String) (p : Printer) (st : St) (par : Nat) : List Expr → St × List Nat
+def injAllL (L : Expr → String) (st : St) (par : Nat) : List Expr → St × List Nat
   | [] => (st, [])
   | e :: es =>
-    let r := inject H p st (some par) e
-    let rs := injAll H p r.1 par es
+    let r := injectL L st (some par) e
+    let rs := injAllL L r.1 par es
     (rs.1, r.2 :: rs.2)
 
-theorem injAll_WF (H : Key → String) (p : Printer) (st : St) (par : Nat) (es : List Expr) (h : WF st) :
-    WF (injAll H p st par es).1 := by
+theorem injAllL_WF (L : Expr → String) (st : St) (par : Nat) (es : List Expr) (h : WF st) :
+    WF (injAllL L st par es).1 := by
   induction es generalizing st with
   | nil => exact h
-  | cons e es ih => exact ih _ (inject_WF H p st (some par) e h)
+  | cons e es ih => exact ih _ (injectL_WF L st (some par) e h)
 
-theorem injAll_mono (H : Key → String) (p : Printer) (st : St) (par : Nat) (es : List Expr)
+theorem injAllL_mono (L : Expr → String) (st : St) (par : Nat) (es : List Expr)
     (l : String) (n : Nat) (h : (st.children par).lookup l = some n) :
-    ((injAll H p st par es).1.children par).lookup l = some n := by
+    ((injAllL L st par es).1.children par).lookup l = some n := by
   induction es generalizing st with
   | nil => exact h
-  | cons e es ih => exact ih _ (inject_mono H p st (some par) e par l n h)
+  | cons e es ih => exact ih _ (injectL_mono L st (some par) e par l n h)
 
-theorem injAll_length (H : Key → String) (p : Printer) (st : St) (par : Nat) (es : List Expr) :
-    (injAll H p st par es).2.length = es.length := by
+theorem injAllL_length (L : Expr → String) (st : St) (par : Nat) (es : List Expr) :
+    (injAllL L st par es).2.length = es.length := by
   induction es generalizing st with
   | nil => rfl
-  | cons e es ih => simp [injAll, ih]
+  | cons e es ih => simp [injAllL, ih]
 
 /-- every returned node is what its label resolves to at the end -/
-theorem injAll_lookup (H : Key → String) (p : Printer) (st : St) (par : Nat) (es : List Expr)
-    (e : Expr) (n : Nat) (h : (e, n) ∈ es.zip (injAll H p st par es).2) :
-    ((injAll H p st par es).1.children par).lookup (label H p e) = some n := by
+theorem injAllL_lookup (L : Expr → String) (st : St) (par : Nat) (es : List Expr)
+    (e : Expr) (n : Nat) (h : (e, n) ∈ es.zip (injAllL L st par es).2) :
+    ((injAllL L st par es).1.children par).lookup (L e) = some n := by
   induction es generalizing st with
-  | nil => simp [injAll] at h
+  | nil => simp [injAllL] at h
   | cons e' es ih =>
-    simp only [injAll, List.zip_cons_cons, List.mem_cons, Prod.mk.injEq] at h
+    simp only [injAllL, List.zip_cons_cons, List.mem_cons, Prod.mk.injEq] at h
     rcases h with ⟨rfl, rfl⟩ | h
-    · exact injAll_mono H p _ par es _ _ (inject_lookup_self H p st par e)
+    · exact injAllL_mono L _ par es _ _ (injectL_lookup_self L st par e)
     · exact ih _ h
 
 /-- **sharing = equal labels**: two expressions of a history got the same node iff their labels coincide -/
-theorem share_iff (H : Key → String) (p : Printer) (st : St) (par : Nat) (es : List Expr) (hwf : WF st)
+theorem share_iffL (L : Expr → String) (st : St) (par : Nat) (es : List Expr) (hwf : WF st)
     (e1 e2 : Expr) (n1 n2 : Nat)
-    (h1 : (e1, n1) ∈ es.zip (injAll H p st par es).2) (h2 : (e2, n2) ∈ es.zip (injAll H p st par es).2) :
-    n1 = n2 ↔ label H p e1 = label H p e2 := by
-  have l1 := injAll_lookup H p st par es e1 n1 h1
-  have l2 := injAll_lookup H p st par es e2 n2 h2
-  have wf := injAll_WF H p st par es hwf par
+    (h1 : (e1, n1) ∈ es.zip (injAllL L st par es).2) (h2 : (e2, n2) ∈ es.zip (injAllL L st par es).2) :
+    n1 = n2 ↔ L e1 = L e2 := by
+  have l1 := injAllL_lookup L st par es e1 n1 h1
+  have l2 := injAllL_lookup L st par es e2 n2 h2
+  have wf := injAllL_WF L st par es hwf par
   constructor
   · intro e
     subst e
@@ -184,6 +186,64 @@ theorem share_iff (H : Key → String) (p : Printer) (st : St) (par : Nat) (es :
     rw [e] at l1
     rw [l1] at l2
     exact Option.some.inj l2
+
+/-! ### the same for the labels of `_get_injection_label` (instances of the generic lemmas) -/
+
+theorem inject_found (H : Key → String) (p : Printer) (st : St) (par : Nat) (e : Expr) (n : Nat)
+    (h : (st.children par).lookup (label H p e) = some n) : inject H p st (some par) e = (st, n) :=
+  injectL_found (label H p) st par e n h
+
+theorem inject_new (H : Key → String) (p : Printer) (st : St) (par : Nat) (e : Expr)
+    (h : (st.children par).lookup (label H p e) = none) :
+    inject H p st (some par) e =
+      ({ children := updF st.children par (st.children par ++ [(label H p e, st.next)]), next := st.next + 1 },
+       st.next) :=
+  injectL_new (label H p) st par e h
+
+theorem inject_WF (H : Key → String) (p : Printer) (st : St) (parent : Option Nat) (e : Expr) (h : WF st) :
+    WF (inject H p st parent e).1 := injectL_WF (label H p) st parent e h
+
+theorem inject_lookup_self (H : Key → String) (p : Printer) (st : St) (par : Nat) (e : Expr) :
+    ((inject H p st (some par) e).1.children par).lookup (label H p e) = some (inject H p st (some par) e).2 :=
+  injectL_lookup_self (label H p) st par e
+
+theorem inject_mono (H : Key → String) (p : Printer) (st : St) (parent : Option Nat) (e : Expr)
+    (par : Nat) (l : String) (n : Nat) (h : (st.children par).lookup l = some n) :
+    ((inject H p st parent e).1.children par).lookup l = some n :=
+  injectL_mono (label H p) st parent e par l n h
+
+/-- a history of injections into one parent: final state and the nodes returned, in order -/
+def injAll (H : Key → String) (p : Printer) (st : St) (par : Nat) (es : List Expr) : St × List Nat :=
+  injAllL (label H p) st par es
+
+theorem injAll_WF (H : Key → String) (p : Printer) (st : St) (par : Nat) (es : List Expr) (h : WF st) :
+    WF (injAll H p st par es).1 := injAllL_WF (label H p) st par es h
+
+theorem injAll_mono (H : Key → String) (p : Printer) (st : St) (par : Nat) (es : List Expr)
+    (l : String) (n : Nat) (h : (st.children par).lookup l = some n) :
+    ((injAll H p st par es).1.children par).lookup l = some n := injAllL_mono (label H p) st par es l n h
+
+theorem injAll_length (H : Key → String) (p : Printer) (st : St) (par : Nat) (es : List Expr) :
+    (injAll H p st par es).2.length = es.length := injAllL_length (label H p) st par es
+
+theorem injAll_lookup (H : Key → String) (p : Printer) (st : St) (par : Nat) (es : List Expr)
+    (e : Expr) (n : Nat) (h : (e, n) ∈ es.zip (injAll H p st par es).2) :
+    ((injAll H p st par es).1.children par).lookup (label H p e) = some n :=
+  injAllL_lookup (label H p) st par es e n h
+
+/-- **sharing = equal labels**: two expressions of a history got the same node iff their labels coincide -/
+theorem share_iff (H : Key → String) (p : Printer) (st : St) (par : Nat) (es : List Expr) (hwf : WF st)
+    (e1 e2 : Expr) (n1 n2 : Nat)
+    (h1 : (e1, n1) ∈ es.zip (injAll H p st par es).2) (h2 : (e2, n2) ∈ es.zip (injAll H p st par es).2) :
+    n1 = n2 ↔ label H p e1 = label H p e2 :=
+  share_iffL (label H p) st par es hwf e1 e2 n1 n2 h1 h2
+
+theorem injAll_nil (H : Key → String) (p : Printer) (st : St) (par : Nat) : injAll H p st par [] = (st, []) := rfl
+
+theorem injAll_cons (H : Key → String) (p : Printer) (st : St) (par : Nat) (e : Expr) (es : List Expr) :
+    injAll H p st par (e :: es) =
+      ((injAll H p (inject H p st (some par) e).1 par es).1,
+       (inject H p st (some par) e).2 :: (injAll H p (inject H p st (some par) e).1 par es).2) := rfl
 
 /-! ### when is the printed key injective? -/
 
@@ -259,6 +319,31 @@ theorem label_inj (H : Key → String) (p : Printer) (e1 e2 : Expr)
     simpa [List.append_assoc] using h'
   have := split_first '_' _ _ _ _ h1 h2 h''
   exact ⟨String.toList_inj.mp this.1, String.toList_inj.mp this.2⟩
+
+theorem labelWith_inj (H : Key → String) (pr : Operand → OpKey) (e1 e2 : Expr)
+    (h1 : '_' ∉ e1.cls.toList) (h2 : '_' ∉ e2.cls.toList) (h : labelWith H pr e1 = labelWith H pr e2) :
+    e1.cls = e2.cls ∧ H (keyWith pr e1) = H (keyWith pr e2) := by
+  unfold labelWith at h
+  have h' := congrArg String.toList h
+  simp only [String.toList_append] at h'
+  have h'' : e1.cls.toList ++ '_' :: (H (keyWith pr e1)).toList = e2.cls.toList ++ '_' :: (H (keyWith pr e2)).toList := by
+    simpa [List.append_assoc] using h'
+  have := split_first '_' _ _ _ _ h1 h2 h''
+  exact ⟨String.toList_inj.mp this.1, String.toList_inj.mp this.2⟩
+
+/-- a map that is injective on the elements of two lists is injective on the lists -/
+theorem map_inj_on {α β : Type} (f : α → β) (l1 l2 : List α)
+    (hf : ∀ a ∈ l1, ∀ b ∈ l2, f a = f b → a = b) (h : l1.map f = l2.map f) : l1 = l2 := by
+  induction l1 generalizing l2 with
+  | nil => cases l2 <;> simp_all
+  | cons a as ih =>
+    cases l2 with
+    | nil => simp at h
+    | cons b bs =>
+      simp only [List.map_cons, List.cons.injEq] at h
+      have hab := hf a (by simp) b (by simp) h.1
+      have := ih bs (fun x hx y hy => hf x (List.mem_cons_of_mem _ hx) y (List.mem_cons_of_mem _ hy)) h.2
+      rw [hab, this]
 
 theorem dispatch_no_underscore : ∀ d : Dunder, '_' ∉ (dispatch d).toList := by
   intro d; cases d <;> decide
